@@ -407,7 +407,8 @@ def step (s : Sys) : Op → Option Sys
       -- only after `persistCfg` (which parks the process in `failing`: it will not act again)
       if x.pc = .failing then
         some (setSub { s with disk := { persistStatus x with subCnt := s.disk.subCnt, doneCnt := s.disk.doneCnt } } p
-          { x with pend := [], newly := [] })
+          { x with loc := { persistStatus x with subCnt := s.disk.subCnt, doneCnt := s.disk.doneCnt },
+                   pend := [], newly := [] })
       else none
     | none => none
   | .skipPersist p =>
@@ -446,7 +447,7 @@ def step (s : Sys) : Op → Option Sys
       -- `finally: demote`: from a finished round, after an exception, or the early exit on completion
       if (x.pc = .unmarked ∧ !x.decided) ∨ x.pc = .flagged ∨ x.pc = .failing then
         if s.submitter = some p then
-          some (setSub { s with submitter := none } p { x with pc := .gone })
+          some (setSub { s with submitter := none } p { x with pc := .gone, hasMarker := false, pend := [] })
         else none
       else none
     | none => none
